@@ -161,7 +161,7 @@ def run_trace_validation(prop, tier, seed, scratch, cov, violations, stages=(("s
         elif kind == "scen":
             args = ["-programs", "2", "-steps", "30", "-bigprograms", "0", "-scenarios"]
         else:
-            nkeys = 80
+            nkeys = 80 if q else 260
             args = ["-programs", "6" if q else "60", "-steps", "60" if q else "120", "-bigprograms", "0", "-bigobj"]
         spine = None
         if kind == "std" and dv == 0 and prop in SLICE_PROPS:
